@@ -583,8 +583,8 @@ def run(chk, tier):
     units_rule(chk, db)
     from ..rules import rel as _REL
     nrel = _REL.check(chk, db, ["_chrono/time_point.hpp", "_chrono/duration.hpp"])      # REL: the relational operators over the ordering domain
-    if nrel < 8:
-        chk.analysis_broken("REL: only %d relational operators of duration / time_point modelled (floor 8)" % nrel)
+    if chk.rule_instances.get("REL", 0) < 8:
+        chk.analysis_broken("REL: only %d relational operators of duration / time_point found (floor 8)" % chk.rule_instances.get("REL", 0))
     round_rule(chk, db)
     tus, info = gen.generate(quick)
     res = wit.compile_many(tus, compiler="g++", jobs=16)
